@@ -321,6 +321,14 @@ void BppODiscreteDistributionFormat::writeDiscreteDistribution(
       out << ",";
     out << "n="  << dist.getNumberOfCategories();
     comma = true;
+    if (dynamic_cast<const UniformDiscreteDistribution*>(&dist))
+    {
+      // The bounds are not parameters: write them as the reader expects them.
+      int p = out.getPrecision();
+      out.setPrecision(12);
+      out << ",begin=" << dist.getLowerBound() << ",end=" << dist.getUpperBound();
+      out.setPrecision(p);
+    }
   }
 
   try
